@@ -2,7 +2,7 @@
 # tools/try_seed.sh <dir-with-patch.diff> <CNN> [more check ids…]
 # applies a candidate breaking change in a scratch worktree of /repo and runs the given checks against it (VERIF_REPO).
 set -u
-d=$1; shift
+d=$(cd "$1" && pwd); shift
 wt=/tmp/seedwt-$$
 git -C /repo worktree add -q $wt HEAD || exit 2
 # hook files that are not committed yet in /repo
